@@ -41,7 +41,8 @@
 (*                           a callee that falls off its end -> Undef;     *)
 (*                           type confusion (arithmetic on booleans,       *)
 (*                           truthiness of numbers) -> Skip.               *)
-(*     RunFrom(body, i, env, ft)  statement interpreter (documented in     *)
+(*     RunFrom(body, i, env, ft)  statement interpreter incl. the loops    *)
+(*                           RunWhile / RunFor (documented in              *)
 (*                           PyFn; it lives here because TLA+ wants        *)
 (*                           mutually recursive operators in one module)   *)
 (*     FreeVars(e)  Consts(e)  Calls(e)  CmpNums(e)  Depth(e)              *)
@@ -111,7 +112,7 @@ CmpHolds(op, a, b) ==
 
 \* ---- meaning ---------------------------------------------------------------------------
 RECURSIVE Eval(_, _, _), EvalSeq(_, _, _, _), EvalCmp(_, _, _, _, _), EvalAnd(_, _, _, _),
-          EvalOr(_, _, _, _), FoldMinMax(_, _, _, _), RunFrom(_, _, _, _)
+          EvalOr(_, _, _, _), FoldMinMax(_, _, _, _), RunFrom(_, _, _, _), RunWhile(_, _, _, _), RunFor(_, _, _, _, _)
 
 \* values of args[i..], left to right, stopping after the first bad one (which is then the last element)
 EvalSeq(args, i, env, ft) ==
@@ -188,18 +189,46 @@ Eval(e, env, ft) ==
 \* ---- statements (see PyFn.tla) -----------------------------------------------------------
 Stop(v, env) == [st |-> IF v = Skip THEN "skip" ELSE "err", v |-> v, env |-> env]
 
+Bind(env, x, v) == [y \in DOMAIN env \cup {x} |-> IF y = x THEN v ELSE env[y]]
+LoopFuel == 16     \* a while loop that has not finished after that many rounds: Skip (the case is discarded)
+
 RunFrom(body, i, env, ft) ==
     IF i > Len(body) THEN [st |-> "none", v |-> Undef, env |-> env]
     ELSE LET s == body[i]
              v == Eval(s.e, env, ft)
-         IN IF BadV(v) THEN Stop(v, env)
-            ELSE CASE s.k = "assign" -> RunFrom(body, i + 1, [x \in DOMAIN env \cup {s.name} |->
-                                                                  IF x = s.name THEN v ELSE env[x]], ft)
-                   [] s.k = "ret" -> [st |-> "ret", v |-> v, env |-> env]
-                   [] s.k = "if" ->
-                        IF ~IsBoolV(v) THEN Stop(Skip, env)
-                        ELSE LET r == RunFrom(IF v.b THEN s.body ELSE s.orelse, 1, env, ft)
-                             IN IF r.st = "none" THEN RunFrom(body, i + 1, r.env, ft) ELSE r
+         IN CASE s.k = "assign" -> IF BadV(v) THEN Stop(v, env) ELSE RunFrom(body, i + 1, Bind(env, s.name, v), ft)
+              [] s.k = "aug" ->      \* x op= e : x is read first, then e
+                    IF s.name \notin DOMAIN env THEN Stop(Undef, env)
+                    ELSE IF BadV(v) THEN Stop(v, env)
+                    ELSE LET w == Arith(s.op, NumOf(env[s.name]), NumOf(v))
+                         IN IF BadV(w) THEN Stop(w, env) ELSE RunFrom(body, i + 1, Bind(env, s.name, w), ft)
+              [] s.k = "ret" -> IF BadV(v) THEN Stop(v, env) ELSE [st |-> "ret", v |-> v, env |-> env]
+              [] s.k = "if" ->
+                    IF BadV(v) THEN Stop(v, env)
+                    ELSE IF ~IsBoolV(v) THEN Stop(Skip, env)
+                    ELSE LET r == RunFrom(IF v.b THEN s.body ELSE s.orelse, 1, env, ft)
+                         IN IF r.st = "none" THEN RunFrom(body, i + 1, r.env, ft) ELSE r
+              [] s.k = "while" ->
+                    LET r == RunWhile(s, env, ft, LoopFuel)
+                    IN IF r.st = "none" THEN RunFrom(body, i + 1, r.env, ft) ELSE r
+              [] s.k = "for" ->      \* for name in range(e), e an integer literal
+                    IF ~(s.e.k = "num" /\ RatV(v) /\ IsInt(v)) THEN Stop(Skip, env)
+                    ELSE LET r == RunFor(s, 0, v.n, env, ft)
+                         IN IF r.st = "none" THEN RunFrom(body, i + 1, r.env, ft) ELSE r
+
+\* st = "none": the loop ended normally in environment env
+RunWhile(s, env, ft, fuel) ==
+    LET t == Eval(s.e, env, ft)
+    IN IF BadV(t) THEN Stop(t, env)
+       ELSE IF ~IsBoolV(t) \/ fuel = 0 THEN Stop(Skip, env)
+       ELSE IF ~t.b THEN [st |-> "none", v |-> Undef, env |-> env]
+       ELSE LET r == RunFrom(s.body, 1, env, ft)
+            IN IF r.st = "none" THEN RunWhile(s, r.env, ft, fuel - 1) ELSE r
+
+RunFor(s, j, cnt, env, ft) ==
+    IF j >= cnt THEN [st |-> "none", v |-> Undef, env |-> env]
+    ELSE LET r == RunFrom(s.body, 1, Bind(env, s.name, RFromInt(j)), ft)
+         IN IF r.st = "none" THEN RunFor(s, j + 1, cnt, r.env, ft) ELSE r
 
 \* ---- syntax-directed operators -------------------------------------------------------------
 RECURSIVE FreeVars(_), Consts(_), Calls(_), Subst(_, _), Depth(_), CmpNums(_)
